@@ -7,7 +7,7 @@ CTX = [('', ''), ('p', 'q'), ('\\begin{e}', '\\end{e}'), ('\\begin{e}x\\begin{f}
        ('\\begin{e}[o]{r}', '\\w{z}\\end{e}')]
 BUILTIN = ['verbatim', 'lstlisting', 'verbatimtab', 'Verbatim', 'listing']
 FRAGS = ['', '\\end{other}', '\\begin{verbatim}', '$', 'x{', 'x}', 'x[', ']', '\\begin{e}', '\\end{e}', '%c\n', '\\item', '$$', '\\(',
-         '\\zz{q}', 'x\\', '\\end{verbati}', '\\end verbatim', '\\en']
+         '\\zz{q}', 'x\\', '\\end{verbati}', '\\end verbatim', '\\en', '\\end{@', '\\end{@x}', '\\end{@ }', '\\end[@}', 'a\\end{@\n']
 
 
 def body_ok(b):
@@ -30,8 +30,6 @@ def body_ok(b):
 
 def c11(ci, fi, n, user):
     free = SX.fresh(n)
-    body = FRAGS[fi] + free
-    body_ok(body)
     if isinstance(user, str):
         name = user                 # a concrete user-chosen name (e.g. one that is also a math environment name)
         kw = {'skip_envs': (name,)}
@@ -46,6 +44,8 @@ def c11(ci, fi, n, user):
     else:
         name = BUILTIN[(ci + fi) % len(BUILTIN)]
         kw = {}
+    body = FRAGS[fi].replace('@', name) + free       # '@' stands for the environment's own name
+    body_ok(body)
     pre, post = CTX[ci]
     src = pre + '\\begin{' + name + '}' + body + '\\end{' + name + '}' + post
     det = lambda: {'source': src, 'skip_envs': repr(kw)}
